@@ -74,4 +74,7 @@ def groupGet : Groups → Nat → List Nat
   | [], _ => []
   | (k', vs) :: rest, k => if k' = k then vs else groupGet rest k
 
+/-- `s.add(x)` for a set kept as a list without repetition -/
+def setAdd (l : List Nat) (x : Nat) : List Nat := if l.contains x then l else l ++ [x]
+
 end Py
